@@ -465,6 +465,7 @@ pub fn for_each_core(sp: &Space, shard: u64, nshards: u64, mut f: impl FnMut(Gra
                         boundary: b,
                         props: vec![],
                         panic_on: None,
+                        panic_thread: None,
                     });
                 }
             }
